@@ -50,3 +50,23 @@ pub fn send_to(pid: &RefVal, payload: RefVal) -> Vec<u8> {
 pub fn reg_send_to(name: &str, payload: RefVal) -> Vec<u8> {
     pt(RefVal::Tuple(vec![RefVal::int(6), peer_pid(9), RefVal::atom(""), RefVal::atom(name)]), Some(payload))
 }
+
+/// A process whose handler parks at the harness gate `proc.handle` on its first message, so that its
+/// mailbox can be filled to capacity behind it.
+pub struct SlowRec {
+    pub name: String,
+    pub log: Log,
+    pub held: bool,
+}
+
+impl Process for SlowRec {
+    async fn handle_message(&mut self, msg: Message) -> edp_node::Result<()> {
+        if !self.held {
+            self.held = true;
+            edp_client::verif::point("proc.handle").await;
+        }
+        let d = describe(&msg);
+        self.log.lock().unwrap().push((self.name.clone(), d));
+        Ok(())
+    }
+}
